@@ -698,6 +698,19 @@ fn run_script(script: &[&str], n: usize) {
                             tokio::time::sleep(Duration::from_millis(geti_d(&kv, "ms", 20))).await;
                             "ok".into()
                         }
+                        "waitprobe" => {
+                            // storage().wait() started in the background: has it returned after `ms` milliseconds?
+                            // (with the write gate shut and a write in flight it must not have)
+                            let hy = hh.as_ref().unwrap().clone();
+                            let t = tokio::spawn(async move {
+                                hy.storage().wait().await;
+                                "waited".to_string()
+                            });
+                            tokio::time::sleep(Duration::from_millis(geti_d(&kv, "ms", 100))).await;
+                            let done = t.is_finished();
+                            sh.bg.lock().push((0, t));
+                            format!("returned={}", done as u8)
+                        }
                         "bsload" => {
                             // a load straight from the disk store (`HybridCache::storage().load`) in the background
                             let k = geti(&kv, "k");
